@@ -176,3 +176,28 @@ def context(vals):
         if any(t != tag for t in seen[n0:]):
             return False, f"host function saw context {seen[n0:]} during the evaluation with filter {tag}"
     return True, "ok"
+
+
+def version_order(la, lb, vals):
+    """version(a) <op> version(b), directly and through CEL: numeric component order, missing components are zero"""
+    import celpy
+    import celpy.c7nlib as c7n
+    from celpy import celtypes as ct
+    a = "".join(chr(vals[f"a_c{i}"]) for i in range(la))
+    b = "".join(chr(vals[f"b_c{i}"]) for i in range(lb))
+    A, B = [int(x) for x in a.split(".")], [int(x) for x in b.split(".")]
+    n = max(len(A), len(B))
+    A, B = A + [0] * (n - len(A)), B + [0] * (n - len(B))
+    want = {"<": A < B, "<=": A <= B, ">": A > B, ">=": A >= B, "==": A == B, "!=": A != B}
+    import operator
+    pyop = {"<": operator.lt, "<=": operator.le, ">": operator.gt, ">=": operator.ge, "==": operator.eq, "!=": operator.ne}
+    env = celpy.Environment(annotations=dict(c7n.DECLARATIONS))
+    for op, w in want.items():
+        got = pyop[op](c7n.version(ct.StringType(a)), c7n.version(ct.StringType(b)))
+        if bool(got) != w:
+            return False, f"version({a!r}) {op} version({b!r}) is {got}, numeric component order gives {w}"
+        prog = env.program(env.compile(f"version(a) {op} version(b)"), functions=dict(c7n.FUNCTIONS))
+        kd, r = evaluate_outcome(lambda: prog.evaluate({"a": ct.StringType(a), "b": ct.StringType(b)}))
+        if kd != "value" or bool(r) != w:
+            return False, f"CEL `version(a) {op} version(b)` with a={a!r}, b={b!r}: {kd} {r!r:.80}, numeric component order gives {w}"
+    return True, "ok"
